@@ -170,23 +170,33 @@ def _adjoint_system(model: Model, fc, H: RuleResult):
                 grew = True
     found = False
     for s in own_nodes(bw.node):
-        if isinstance(s, ast.Assign) and isinstance(s.targets[0], ast.Name) and isinstance(s.value, ast.Call) \
-                and ast.unparse(s.value.func).endswith("einsum") and len(s.value.args) == 3:
-            found = True
+        if not (isinstance(s, ast.Assign) and isinstance(s.targets[0], ast.Name) and isinstance(s.value, ast.Call)):
+            continue
+        fn_ = ast.unparse(s.value.func)
+        ops = conj = None
+        if fn_.endswith("einsum") and len(s.value.args) == 3:
             ops = s.value.args[1:]
             conj = [isinstance(o, ast.Call) and isinstance(o.func, ast.Attribute) and o.func.attr == "conj" for o in ops]
-            what = "%s" % norm_stmt(s, 100)
-            if conj.count(True) == 1:
-                other = ops[conj.index(False)]
-                v_ok = isinstance(other, ast.Name) and other.id in v_names
-                if v_ok:
-                    H.ok(bw.fq, "grad_E contracts the adjoint solution with a conjugated M x: " + what)
-                else:
-                    H.bad(bw, s, "grad_E must contract the adjoint solution V with conj(M X)", what=what)
+        elif fn_.endswith("vecdot") and len(s.value.args) >= 2:
+            # torch.linalg.vecdot(a, b, dim) = sum(conj(a) * b, dim): the first operand is the conjugated one
+            ops = s.value.args[:2]
+            explicit = [isinstance(o, ast.Call) and isinstance(o.func, ast.Attribute) and o.func.attr == "conj" for o in ops]
+            conj = [not explicit[0], explicit[1]]
+        if ops is None:
+            continue
+        found = True
+        what = "%s" % norm_stmt(s, 100)
+        if conj.count(True) == 1:
+            other = ops[conj.index(False)]
+            v_ok = isinstance(other, ast.Name) and other.id in v_names
+            if v_ok:
+                H.ok(bw.fq, "grad_E contracts the adjoint solution with a conjugated M x: " + what)
             else:
-                H.bad(bw, s, "grad_E must conjugate exactly the M X operand", what=what)
+                H.bad(bw, s, "grad_E must contract the adjoint solution V with conj(M X)", what=what)
+        else:
+            H.bad(bw, s, "grad_E must conjugate exactly the M X operand", what=what)
     if not found:
-        H.bad(bw, bw.node, "no einsum contraction for grad_E found")
+        H.undecided(bw, bw.node, "cannot find the contraction that forms grad_E (einsum / vecdot)")
 
 
 def _signs(fc, S: RuleResult):
